@@ -32,6 +32,14 @@ Lemma flat_map_if_map {A B} (p : A -> bool) (f : A -> B) l :
   flat_map (fun x => if p x then [f x] else []) l = map f (filter p l).
 Proof. induction l as [|x l IH]; cbn; [reflexivity|]. destruct (p x); cbn; rewrite IH; reflexivity. Qed.
 
+Lemma removed_two_passes {A} (p q : A -> bool) l :
+  negb (forallb p l) || negb (forallb q (filter p l)) = negb (forallb (fun x => p x && q x) l).
+Proof.
+  induction l as [|x l IH]; cbn; [reflexivity|].
+  destruct (p x); cbn; [destruct (q x); cbn|]; try rewrite <- IH; try reflexivity.
+  - rewrite orb_true_r. reflexivity.
+Qed.
+
 Lemma sticky_orb old r : sticky old r = old || r.
 Proof. destruct old, r; reflexivity. Qed.
 
@@ -108,6 +116,12 @@ Section Proofs.
   Lemma filter_gateway_services_exact l :
     filter_gateway_services az l = (filter (readable_gwsvc az) l, negb (forallb (readable_gwsvc az) l)).
   Proof. apply range_filter_ext. reflexivity. Qed.
+  Lemma filter_gateways_by_gateway_exact l :
+    filter_gateways_by_gateway az l
+    = (filter (fun g => svc_ok az EmptyString (gs_gateway g)) l,
+       negb (forallb (fun g => svc_ok az EmptyString (gs_gateway g)) l)).
+  Proof. apply range_filter_ext. intros g. apply allow_service_ok. Qed.
+
   Lemma filter_dir_ent_exact l : filter_dir_ent az l = filter (readable_dirent az) l.
   Proof.
     unfold filter_dir_ent. rewrite compact_is_filter. apply filter_ext. intros d.
